@@ -208,9 +208,9 @@ func cmdCheck(args []string) {
 	for _, u := range units {
 		obls = append(obls, u.VC.obls...)
 	}
-	cfg := &SolverCfg{Names: []string{"z3-new", "z3", "cvc5"}, Timeout: 30 * time.Second, Seed: *seedF, WorkDir: filepath.Join(*verif, ".work", prop+workSuffix(*noEv)), Workers: 14, KeepQueries: *keep, Phase1: true}
+	cfg := &SolverCfg{Names: []string{"z3-new", "z3", "cvc5"}, Timeout: 60 * time.Second, Seed: *seedF, WorkDir: filepath.Join(*verif, ".work", prop+workSuffix(*noEv)), Workers: 14, KeepQueries: *keep, Phase1: true}
 	if *tier == "thorough" {
-		cfg.Timeout = 90 * time.Second
+		cfg.Timeout = 180 * time.Second
 	}
 	if *timeoutF > 0 {
 		cfg.Timeout = time.Duration(*timeoutF) * time.Second
